@@ -13,6 +13,7 @@ import (
 	"go.lstv.dev/util/sem"
 	"go.lstv.dev/util/size"
 	"go.lstv.dev/util/uu"
+	"verif/firstuse"
 	"verif/libdefaults"
 	"verif/mc"
 )
@@ -300,6 +301,7 @@ func probeAlloc(a allocArg) (string, string) {
 func main() {
 	mc.Main("C18", "every token string up to the stated length over a hostile token alphabet (valid fragments, NUL, 0x80, 0xFF, multi-byte runes, JSON punctuation) into every parsing / validating / comparing entry point under every rule subset (plus out-of-range rule bits) and four MaxInputLength settings; all pairs of shorter token strings into the two-input helpers; structured long runs at limit-1, limit, limit+1, 10x; "+
 		"non-trivial = input containing a non-ASCII or control byte", func(r *mc.Run) {
+		firstuse.Phase(r, map[string][]string{"date": {"parse", "binary"}, "roman": {"parse", "valid"}, "sem": {"parse", "compare"}, "size": {"parse", "json"}, "uu": {"parse"}})
 		r.Reset = reset
 		reset()
 		p1 := mc.NewProbe(r, "entry", setupOne, probeOne)
